@@ -335,6 +335,23 @@ func c11Run(x *vmc.X, cfg vmc.Cfg) {
 	if x.Failed() {
 		return
 	}
+	// at rest (every call returned, every invalidation and timeout has run) at most one stream per peer is left
+	// open: the one of the sender that serves the peer now. A second one belongs to a sender that was dropped
+	// without being invalidated - the next exchange then runs beside it (seed C11-j)
+	openAtRest := map[peer.ID][]string{}
+	mu.Lock()
+	for _, st := range streams {
+		if !st.remote.IsReset() && !st.remote.Peer().WriteClosed() {
+			openAtRest[st.to] = append(openAtRest[st.to], st.name)
+		}
+	}
+	mu.Unlock()
+	for to, names := range openAtRest {
+		if len(names) > 1 {
+			x.Failf("C11/more-than-one-open-stream-at-rest", "after every call returned, %d streams to %s are still open (%v): exchanges with one peer are not confined to one stream", len(names), to, names)
+			return
+		}
+	}
 	// oracle on results
 	res := ""
 	sort.Slice(results, func(i, j int) bool { return results[i].id < results[j].id })
